@@ -465,6 +465,9 @@ func (router_info *RouterInfo) RouterCapabilities() string {
 		log.WithError(err).Error("Failed to create I2PString for 'caps'")
 		return ""
 	}
+	if router_info == nil || router_info.options == nil {
+		return ""
+	}
 	// return string(router_info.options.Values().Get(str))
 	caps := string(router_info.options.Values().Get(str))
 	log.WithField("capabilities", caps).Debug("Retrieved RouterCapabilities")
@@ -477,6 +480,9 @@ func (router_info *RouterInfo) RouterVersion() string {
 	str, err := data.ToI2PString("router.version")
 	if err != nil {
 		log.WithError(err).Error("Failed to create I2PString for 'router.version'")
+		return ""
+	}
+	if router_info == nil || router_info.options == nil {
 		return ""
 	}
 	// return string(router_info.options.Values().Get(str))
